@@ -340,7 +340,7 @@ def build_fchk(ctx, natom=2, variant="wf-own"):
     from harness import wfobj
     conv = variant.split("-", 1)[1] if variant.startswith("wf-") else "fchk"
     shells = [(0, [2], ["c"], 1), (1, [0], ["c"], 1)] if natom >= 2 else [(0, [2], ["c"], 1)]
-    if variant in ("uhf", "rohf", "post", "corenums", "bare"):
+    if variant in ("uhf", "rohf", "post", "corenums", "bare", "lotblank"):
         shells = [(0, [1], ["c"], 1), (1, [0], ["c"], 1)][:max(1, natom)]
     atoms = [(8, None), (1, None), (6, None)][:natom]
     mo_kind, occ = "restricted", "closed"
@@ -372,7 +372,7 @@ def build_fchk(ctx, natom=2, variant="wf-own"):
         kw["atcharges"] = {k: ctx.real_array(f"q{k}", (natom,), lo=-9, hi=9)
                            for k in ("mulliken", "esp", "npa", "mbs", "hirshfeld", "cm5")}
         kw["title"] = "fchk title"
-        kw["lot"] = "mp2" if variant == "post" else "hf"
+        kw["lot"] = "mp2" if variant == "post" else ("restricted hf" if variant == "lotblank" else "hf")
         kw["obasis_name"] = "sto-3g"
         kw["run_type"] = ctx.choice(["energy", "freq", "opt", "scan"], label="run_type")
         if variant not in ("geom", "nomo"):
